@@ -29,6 +29,7 @@ func (r *rng) intn(n int) int {
 }
 func (r *rng) chance(num, den int) bool { return r.intn(den) < num }
 func (r *rng) pick(s []string) string   { return s[r.intn(len(s))] }
+func (r *rng) pickInt(s []int) int      { return s[r.intn(len(s))] }
 
 var alphabet = []byte("[]{},:\"\\/utrefalsn019-+.E \t\x1f\x7f\x80\xff")
 
